@@ -329,6 +329,7 @@ trait Kind {
     const IMPORT: bool;
     fn new_mgr(cap: usize, nv: u32) -> Self::MR;
     fn num_vars(m: &Self::MR) -> u32;
+    fn num_terminals(m: &Self::MR) -> usize;
     fn ensure_vars(m: &Self::MR, n: u32);
     fn set_name(m: &Self::MR, v: u32, name: &str) -> bool;
     fn v2l(m: &Self::MR) -> Vec<u32>;
@@ -504,6 +505,9 @@ macro_rules! impl_kind {
             }
             fn num_vars(m: &Self::MR) -> u32 {
                 m.with_manager_shared(|m| m.num_vars())
+            }
+            fn num_terminals(m: &Self::MR) -> usize {
+                m.with_manager_shared(|m| m.num_terminals())
             }
             fn ensure_vars(m: &Self::MR, n: u32) {
                 m.with_manager_exclusive(|m| {
@@ -748,7 +752,7 @@ fn run_case<K: Kind>(case: &Case, out: &mut dyn FnMut(String)) {
                         base = buf;
                         let mut aux: Vec<String> = Vec::new();
                         aux.push(format!(".file {}", hex(&base)));
-                        aux.push(format!(".src v2l={} nvars={}", join(K::v2l(&m)), K::num_vars(&m)));
+                        aux.push(format!(".src v2l={} nvars={} nterm={}", join(K::v2l(&m)), K::num_vars(&m), K::num_terminals(&m)));
                         let roots: Vec<&K::F> = o.roots.iter().map(|(i, _)| &funcs[*i]).collect();
                         aux.push(format!(".dump {}", K::dump(&m, &roots)));
                         aux.push(format!(
